@@ -191,6 +191,13 @@ def run_case(case) -> List[Tuple[str, str]]:
     work = tempfile.mkdtemp(prefix="c20_", dir=case["workdir"])
     try:
         cfg_f, cfg_i, inp = {}, {}, {"faults": [], "ops_cap": 5}
+        if case.get("live") == "gel_hybrid":
+            # GEL and the hybrid rerank live in BOTH runs: what the graph learns in one turn shows in the next turn's
+            # t2 record, so a fault that makes a subsystem disturb the graph between turns becomes visible in the records
+            for c_ in (cfg_f, cfg_i):
+                c_.update({"t2": {"hybrid": {"enabled": True, "anchor_top_m": 2, "walk_hops": 2, "edge_threshold": 0.0, "lambda_graph": 1.0, "max_bonus": 0.5}},
+                           "graph": {"coactivation_threshold": 0.0, "observe_top_k": 4}})
+            inp["graph"] = True
         need_deltas = False
         for s in sites:
             d = SITES[s]
@@ -212,10 +219,17 @@ def run_case(case) -> List[Tuple[str, str]]:
         wtext = ["I like apple and banana", "cherry pie and dates, please", ""][wsel]
 
         def mk(name, cfg, faulty):
-            s = Session(os.path.join(work, name), base_cfg=cfg, exc=exc, boot_loaded=not boot, text=wtext,
-                        episodes=(None if wsel != 2 else []))
-            s.state["graph"] = copy.deepcopy(gel_graph)
-            s.state["gel"] = s.state["graph"]
+            eps_ = None if wsel != 2 else []
+            if case.get("live"):
+                # memories that are co-retrieved with a positive score, so that the GEL graph learns edges in the first turn
+                eps_ = [E.mk_episode(f"ep{j}", ["A", "A", "B", "world"][j], wtext, ts=f"2025-08-{10 + j:02d}T00:00:00Z", importance=0.5, cluster="c0")
+                        for j in range(4)]
+            s = Session(os.path.join(work, name), base_cfg=cfg, exc=exc, boot_loaded=not boot, text=wtext, episodes=eps_)
+            if not (boot and case.get("live")):
+                s.state["graph"] = copy.deepcopy(gel_graph)
+                s.state["gel"] = s.state["graph"]
+            # (a state that is about to boot has learnt nothing yet: in the live-GEL boot cases the graph starts empty in
+            # both runs and is learnt through the turns' own observations)
             if need_deltas:
                 st = E.RecordingStore(inner=s.state["store"])
                 if faulty:
@@ -227,7 +241,9 @@ def run_case(case) -> List[Tuple[str, str]]:
                     s.state["store"] = _NoopStore(s.state["store"])
             if boot and faulty and "boot_garbage" in sites:
                 os.makedirs(s.snapdir, exist_ok=True)
-                with open(os.path.join(s.snapdir, "state_A.json"), "wb") as f:
+                # (in the live cases the garbage is a numbered snap_* file: discovery prefers it, and the turn's own
+                # state_A.json snapshot does not overwrite it, so every later boot attempt meets it again)
+                with open(os.path.join(s.snapdir, "snap_000007.json" if case.get("live") else "state_A.json"), "wb") as f:
                     f.write(GARBAGE[case["garbage"]])
             return s
         sF, sI = mk("faulty", cfg_f, True), mk("idle", cfg_i, False)
@@ -241,7 +257,7 @@ def run_case(case) -> List[Tuple[str, str]]:
             inp_i["maint"] = False
         if any(s.startswith("refl_") for s in sites):
             inp_i["allow_refl"] = False
-        for turn in range(2):
+        for turn in range(3 if case.get("live") else 2):
             if need_deltas and isinstance(sF.state["store"], E.RecordingStore):
                 sF.state["store"].new_turn(batch_raises=True, single_raises={"n:apple"} if "store_single" in sites else set())
             oF = sF.run(inp_f, extra_patches=lambda i, _s=sF: _patches_for(sites, exc, _s))
@@ -381,6 +397,11 @@ def check(run) -> None:
                 for w in (1, 2):
                     cases.append({"sites": [s], "exc": e, "workdir": run.workdir, "world": w})
         n += 1
+    for k_, bs in enumerate(["boot_raise"] + [("boot_garbage", g) for g in ("list", "scalar", "wrongtypes", "foreign")]):
+        c = {"sites": [bs] if isinstance(bs, str) else [bs[0]], "exc": excs[k_ % len(excs)], "workdir": run.workdir, "live": "gel_hybrid"}
+        if not isinstance(bs, str):
+            c["garbage"] = bs[1]
+        cases.append(c)
     for j in sorted(LLM_JUNK):
         cases.append({"sites": ["llm_adapter"], "exc": excs[len(cases) % len(excs)], "workdir": run.workdir, "llm_junk": j})
     if not q:
